@@ -283,6 +283,109 @@ def run(prog, rep):
     rep.floor("C07.5", 1)
     rep.floor("C07.1", 1)
     rep.floor("C07.3", 1)
+    sysv(prog, rep)
+
+
+IPC_CREAT, IPC_EXCL, IPC_RMID, IPC_STAT = 0o1000, 0o2000, 0, 2
+
+
+def sysv(prog, rep):
+    """The System V model (pshm-sysv.c; not selectable in the Linux build, analysed with the flags of the POSIX unit)."""
+    rep.rule("C07.6", "System V model: the segment is created exclusively first with the handle's size and otherwise opened without creating and with size 0; the size "
+                      "every handle reports is the kernel's (shm_segsz); the lock semaphore is opened on the same key with value 1, CREATE exactly when this handle "
+                      "created the segment; the segment is removed only when no attachment is left")
+    u = prog.units.get("pshm-sysv.c")
+    if u is None:
+        raise AnalysisBroken("pshm-sysv.c was not analysed")
+    ch = u.fn("pp_shm_create_handle", raw=True)          # as written: the clean-up helper's resets are not part of the protocol
+    sp = ch.param_names()[0]
+    probs = []
+    seen = {"excl": 0, "fallback": 0, "size": 0, "sem": 0}
+
+    def on_stmt(st, b, i, stmt):
+        facts, gets, created = st
+        for c in calls(stmt):
+            cn = c.get("callee")
+            if cn == "shmget":
+                fl = guards.eval_const(c["args"][2], facts)
+                if fl is None:
+                    # permission bits chosen by a flag: evaluate the flag part structurally
+                    bits = [cv(n) for n in walk(c["args"][2]) if n["k"] in ("int", "ref") and cv(n) is not None]
+                    fl = 0
+                    for x in bits:
+                        if x in (IPC_CREAT, IPC_EXCL, IPC_CREAT | IPC_EXCL):
+                            fl |= x
+                if gets == 0:
+                    seen["excl"] += 1
+                    if (fl & (IPC_CREAT | IPC_EXCL)) != (IPC_CREAT | IPC_EXCL):
+                        probs.append("line %d: the first shmget is not an exclusive create: the handle cannot know whether it created the segment" % line(c))
+                    if guards.key(c["args"][1]) != "%s->size" % sp:
+                        probs.append("line %d: the segment is created with size %s, not the size asked for" % (line(c), show(c["args"][1])))
+                else:
+                    seen["fallback"] += 1
+                    if fl & IPC_CREAT:
+                        probs.append("line %d: the fallback shmget may create the segment" % line(c))
+                    if cv(c["args"][1]) != 0:
+                        probs.append("line %d: an existing segment is opened with size %s instead of 0: a follower asking for more than the segment holds fails, or the sizes disagree" % (line(c), show(c["args"][1])))
+                gets += 1
+            if cn == "p_semaphore_new":
+                seen["sem"] += 1
+                if guards.key(c["args"][0]) != "%s->platform_key" % sp or guards.eval_const(c["args"][1], facts) != 1:
+                    probs.append("line %d: the lock semaphore is not opened on the segment's key with value 1" % line(c))
+                mode = guards.eval_const(c["args"][2], facts)
+                ex = guards.lookup(facts, "is_exists")
+                exv = [guards.lookup(facts, fk) for (fk, fop, fv) in facts if fk.endswith("exists") and fop == "=="]
+                if mode is None or (mode == 1) != (created is True):
+                    probs.append("line %d: the lock semaphore is opened in %s mode on a path where this handle %s the segment: %s" % (
+                        line(c), {0: "OPEN", 1: "CREATE"}.get(mode, "an unknown"), "created" if created else "did not create",
+                        "a follower re-creates (resets) the lock others hold" if not created else "the creator attaches to a stale lock left by a crash"))
+        for n in walk(stmt):
+            if n["k"] == "asg":
+                l = strip_casts(n["l"])
+                if l is not None and l["k"] == "member" and l["field"] == "size" and root_var(l) == sp and gets > 0:
+                    seen["size"] += 1
+                    r = strip_casts(n["r"])
+                    if not (r is not None and r["k"] == "member" and r["field"] == "shm_segsz"):
+                        probs.append("line %d: the reported size is %s, not the size the kernel reports for the segment (shm_segsz)" % (line(n), show(n["r"])))
+        return [(guards.transfer(facts, stmt, kill_calls=False), gets, created)]
+
+    def on_edge(st, b, to, on):
+        f2 = guards.edge_assume(st[0], b, on)
+        if f2 is None:
+            return None
+        facts, gets, created = st
+        if gets == 1 and created is None:
+            hk = "%s->shm_hdl" % sp
+            if any(fk == hk and fop == "!=" and fv == -1 for (fk, fop, fv) in f2):
+                created = True
+            elif guards.lookup(f2, hk) == -1:
+                created = False
+        return (f2, gets, created)
+    Flow(ch, [(guards.EMPTY, 0, None)], on_stmt, on_edge).run()
+    okc = not probs and seen["excl"] >= 1 and seen["fallback"] >= 1 and seen["size"] >= 1 and seen["sem"] >= 1
+    rep.ob("C07.6", ch, "create", okc, "exclusive create with the requested size, plain open with size 0 otherwise, size from shm_segsz, lock CREATE iff creator" if okc else
+           (probs[0] if probs else "creation protocol not recognised (%s)" % seen), ch.loc[0])
+    cl = u.fn("pp_shm_clean_handle")
+    rm = []
+    nat = []
+
+    def on_stmt2(st, b, i, stmt):
+        for c in calls(stmt):
+            if c.get("callee") == "shmctl" and cv(c["args"][1]) == IPC_RMID:
+                rm.append(c)
+                if not any("shm_nattch" in fk and ((fop == "==" and fv == 0) or (fk.endswith("==0)") and fop == "==" and fv == 1)) for (fk, fop, fv) in st):
+                    nat.append(line(c))
+        return [guards.transfer(st, stmt, kill_calls=False)]
+    Flow(cl, [guards.EMPTY], on_stmt2, lambda st, b, to, on: guards.edge_assume(st, b, on)).run()
+    okr = bool(rm) and not nat
+    rep.ob("C07.6", cl, "remove:last", okr, "the segment is removed only with shm_nattch known 0 (no handle is left attached)" if okr else
+           ("line %d: the segment is removed while other handles may still be attached: later openers of the name get a fresh segment" % nat[0] if nat else "no IPC_RMID found"), cl.loc[0])
+    for fname, callee in (("p_shm_lock", "p_semaphore_acquire"), ("p_shm_unlock", "p_semaphore_release")):
+        f = u.fn(fname)
+        cs = [c for (b, i, c) in f.calls() if c.get("callee") in ("p_semaphore_acquire", "p_semaphore_release")]
+        okw = len(cs) == 1 and cs[0]["callee"] == callee and guards.key(cs[0]["args"][0]) == "%s->sem" % f.param_names()[0]
+        rep.ob("C07.6", f, "lock:wiring", okw, "%s -> %s (shm->sem)" % (fname, callee) if okw else "%s does not call %s on shm->sem exactly once" % (fname, callee), f.loc[0])
+    rep.floor("C07.6", 4)
 
 
 def field_of_asg_target(fn, call):
@@ -297,6 +400,14 @@ def field_of_asg_target(fn, call):
 RENAME_LOCALS = ['src/pshm-posix.c']
 
 SELFTEST = [
+    dict(id="sysv-follower-opens-with-own-size", file="src/pshm-sysv.c", expect="C07.6",
+         old="\t\t\tshm->shm_hdl = shmget (shm->unix_key, 0, flags);", new="\t\t\tshm->shm_hdl = shmget (shm->unix_key, shm->size, flags);"),
+    dict(id="sysv-size-not-from-kernel", file="src/pshm-sysv.c", expect="C07.6",
+         old="\tshm->size = shm_stat.shm_segsz;\n", new="\tif (shm->size == 0)\n\t\tshm->size = shm_stat.shm_segsz;\n\telse\n\t\tshm->size = shm->size;\n"),
+    dict(id="sysv-lock-always-open-mode", file="src/pshm-sysv.c", expect="C07.6",
+         old="\t\t\t\t\t\t     is_exists ? P_SEM_ACCESS_OPEN : P_SEM_ACCESS_CREATE,", new="\t\t\t\t\t\t     P_SEM_ACCESS_OPEN,"),
+    dict(id="sysv-rmid-while-attached", file="src/pshm-sysv.c", expect="C07.6",
+         old="shm_stat.shm_nattch == 0 && shmctl (shm->shm_hdl, IPC_RMID, 0) == -1", new="shmctl (shm->shm_hdl, IPC_RMID, 0) == -1"),
     dict(id="map-private", file="src/pshm-posix.c", expect="C07.1",
          old="mmap (NULL, shm->size, flags, MAP_SHARED, fd, 0)", new="mmap (NULL, shm->size, flags, MAP_PRIVATE, fd, 0)"),
     dict(id="readonly-writable", file="src/pshm-posix.c", expect="C07.1",
